@@ -40,7 +40,7 @@ def need_repo_bins():
 
 
 def generic(prop, tier, seed, scaled_quick=("s1",), scaled_thorough=("s1", "s2", "s3"), prod=True,
-            budgets=(60, 600), level="exploration", rule="", musthit=(), assumptions=(), replay_candidates=True,
+            budgets=(300, 1800), level="exploration", rule="", musthit=(), assumptions=(), replay_candidates=True,
             extra_stages=None):
     run = Run(prop, tier, seed)
     prod_bin = build_variant("prod")
@@ -87,7 +87,7 @@ SWEEP_MUSTHIT = ["musthit:cut_at_chunk_edge", "musthit:final_chunk_shorter_than_
 
 def c02(tier, seed):
     return generic(
-        "C02", tier, seed, level="fault_enumeration", budgets=(90, 900),
+        "C02", tier, seed, level="fault_enumeration", budgets=(360, 1800),
         rule="fault = truncation of a valid archive at length n; every n (scaled constants) or every n within 40 bytes of every structural "
              "boundary plus a random sample (production constants) is repaired in both decryption modes and the output re-read with the "
              "normal reader; distinct = distinct (program, n, mode); non-trivial = the cut lies after the header and before the end",
@@ -97,7 +97,7 @@ def c02(tier, seed):
 
 def c05(tier, seed):
     return generic(
-        "C05", tier, seed, level="fault_enumeration", budgets=(100, 1200),
+        "C05", tier, seed, level="fault_enumeration", budgets=(400, 1800),
         rule="(a) undamaged archives (compressed streams ending on and next to block edges, every level, three entropies, many small entries) "
              "are repaired and must come back complete with status EndOfOriginalArchiveData; (b)(c) truncation sweeps as in C02 with the recovered "
              "length per file tracked along increasing prefix lengths (monotonicity) and compared with the model's lower bound (no compression); "
@@ -108,7 +108,7 @@ def c05(tier, seed):
 
 def c04(tier, seed):
     return generic(
-        "C04", tier, seed, level="fault_enumeration", budgets=(60, 600),
+        "C04", tier, seed, level="fault_enumeration", budgets=(300, 1800),
         rule="fault = corruption of one encrypted chunk k (bit flip in its payload, bit flip in its tag, truncation inside it) of a valid encrypted archive, "
              "for every chunk index; contents are aligned so that a block header starts chunk k+1; the authenticated repair output is compared with the bytes "
              "the model finds in the plaintext of chunks 0..k-1 (upper bound) and with the unauthenticated output; distinct = distinct (program, fault); all are non-trivial",
@@ -118,7 +118,7 @@ def c04(tier, seed):
 
 def c03(tier, seed):
     return generic(
-        "C03", tier, seed, level="fault_enumeration", budgets=(60, 900),
+        "C03", tier, seed, level="fault_enumeration", budgets=(300, 1800),
         rule="fault = one alteration of a valid encrypted archive: every single-bit flip of every byte (scaled constants), flips around every structural "
              "boundary / in every chunk payload and tag / every header byte plus samples (production), and chunk-level edits (swap, duplicate, delete, copy, "
              "chunk of a twin archive, tag swap, middle dropped, truncation at chunk edges, foreign header); the normal reader is driven over every listed file "
@@ -131,7 +131,7 @@ def c03(tier, seed):
 
 def c06(tier, seed):
     return generic(
-        "C06", tier, seed, scaled_quick=(), scaled_thorough=(), budgets=(90, 900),
+        "C06", tier, seed, scaled_quick=(), scaled_thorough=(), budgets=(360, 1800),
         rule="direction 1: archives written by the library (the C01 production programs) are decoded by an independent implementation of FORMAT.md with every "
              "structural statement checked (tag of chunk i under nonce||BE32(i), non-final chunks of 128 KiB, non-final blocks of 4 MiB, footers, hashes); "
              "direction 2: archives encoded by the independent implementation (own block splitting incl. empty blocks, ids, recipient order, brotli quality) are read by "
@@ -145,7 +145,7 @@ def c06(tier, seed):
 
 def c10(tier, seed):
     return generic(
-        "C10", tier, seed, budgets=(60, 900),
+        "C10", tier, seed, budgets=(300, 1800),
         rule="histories of list / get_file / read(buffer) / abandon / get_hash on one opened reader over archives of interleaved files spanning several chunks "
              "and blocks; every returned byte count, byte, end-of-file position, size and hash is compared with the reference bytes of the file; constructive "
              "sub-histories abandon a file at every offset (scaled) or offset class (production) and then open another / the same file or ask a hash; "
@@ -156,7 +156,7 @@ def c10(tier, seed):
 
 def c12(tier, seed):
     return generic(
-        "C12", tier, seed, budgets=(60, 900),
+        "C12", tier, seed, budgets=(300, 1800),
         rule="(a) linear_extract of a subset (empty, one, all, random) of heavily interleaved archives into sinks that accept part of each write, compared "
              "with get_file on a second reader; (b) archives encoded by the independent implementation whose block stream lacks the end-of-data marker "
              "(all blocks, cut at a block edge, cut inside a block) before a valid footer and under valid outer layers: linear_extract must fail; "
@@ -169,7 +169,7 @@ def c12(tier, seed):
 
 def c13(tier, seed):
     return generic(
-        "C13", tier, seed, level="fault_enumeration", budgets=(75, 900),
+        "C13", tier, seed, level="fault_enumeration", budgets=(300, 1800),
         rule="fault = transfer schedule: archives are written through destinations accepting 1 / 1..7 / random / <=4095 bytes per call or interrupting every "
              "2nd/3rd call and read back; read and repaired (both modes, intact and cut) through sources returning as few bytes per call, and compared with the "
              "results obtained from memory; distinct = distinct (program, schedule, side); all non-trivial",
@@ -179,7 +179,7 @@ def c13(tier, seed):
 
 def c14(tier, seed):
     return generic(
-        "C14", tier, seed, level="fault_enumeration", budgets=(60, 900),
+        "C14", tier, seed, level="fault_enumeration", budgets=(300, 1800),
         rule="fault = cut right after flush() returned: the bytes the destination holds at that moment are repaired in both modes; every file must come back "
              "with at least the bytes appended before the flush (plain / unauthenticated) or the bytes the independent decoder finds in completed encryption "
              "chunks (authenticated); distinct = distinct (program, flush index); non-trivial = something was appended before the flush",
@@ -189,7 +189,7 @@ def c14(tier, seed):
 
 def c09(tier, seed):
     return generic(
-        "C09", tier, seed, budgets=(60, 900),
+        "C09", tier, seed, budgets=(300, 1800),
         rule="call sequences over {start(fresh|duplicate|empty|65536 B|65537 B), append(open|ended|never-issued id; sizes 0,1,chunk+-1; exact|short|long source), "
              "end(open|ended|never), add, flush, finalize}: all sequences up to length 3 (quick) / 4 (thorough) and sampled sequences of 6..40 calls on 4 layer combos; "
              "twin writers (W1 gets every call, W2 only those the reference model accepts) are finalized and compared through the reader and the independent decoder; "
@@ -201,7 +201,7 @@ def c09(tier, seed):
 
 def c07(tier, seed):
     return generic(
-        "C07", tier, seed, budgets=(60, 900),
+        "C07", tier, seed, budgets=(300, 1800),
         rule="(i) archives built with identical inputs in one process and in child processes: symmetric key, archive nonce, ephemeral public key and every "
              "wrapped key must all be distinct and no bit position constant over the pool; (ii) 24-byte high-entropy probes of every file content and every "
              "file name are searched in the bytes after the header, over every append size class with flushes in between (ENCRYPT and ENCRYPT|COMPRESS with "
@@ -227,7 +227,7 @@ def c08_extra(run, prod_bin, tier):
 
 def c08(tier, seed):
     return generic(
-        "C08", tier, seed, scaled_quick=(), scaled_thorough=(), budgets=(70, 1500), extra_stages=c08_extra,
+        "C08", tier, seed, scaled_quick=(), scaled_thorough=(), budgets=(300, 1800), extra_stages=c08_extra,
         rule="hostile byte strings: valid archives (4 layer combos) with 1..3 structured mutations (truncate, bit flip, byte / u32 / u64 overwrite with boundary values, "
              "splice, insert, delete, append) applied to the raw file, to the compression-layer bytes or to the block stream + footer and then wrapped in valid outer "
              "layers by the independent encoder; forged footers / size tables / block lengths with boundary values, very long offset lists, raw random bytes, empty "
@@ -243,7 +243,7 @@ def c08(tier, seed):
 
 def c15(tier, seed):
     return generic(
-        "C15", tier, seed, scaled_quick=(), scaled_thorough=(), budgets=(150, 2400),
+        "C15", tier, seed, scaled_quick=(), scaled_thorough=(), budgets=(600, 2400),
         rule="peak live heap (counting allocator, one child process per measurement) while writing from a generator to a discarding sink, repairing and linearly "
              "extracting (all files, or only one with the others skipped) an archive streamed from a scratch file; two shapes (4 files x 16 interleaved runs; one file added in a single piece), sizes 8 and 64 MiB (quick) or 16, 128 and 1024 MiB "
              "(thorough), 4 layer combos, several levels, incompressible and constant data; verdict: peak(largest) - peak(smallest) <= 2 MiB and peak under a frozen "
@@ -255,7 +255,7 @@ def c15(tier, seed):
 
 def c18(tier, seed):
     return generic(
-        "C18", tier, seed, scaled_quick=(), scaled_thorough=(), budgets=(60, 900),
+        "C18", tier, seed, scaled_quick=(), scaled_thorough=(), budgets=(300, 1800),
         rule="round-trip laws on generated pairs (DER and PEM of both halves; public half recomputed with x25519-dalek), on Ed25519 pairs built by the harness with "
              "curve25519-dalek (clamp(SHA-512(seed)[..32]).B), PEM presentation variants, concatenated PEM public keys; totality: every single-byte substitution and "
              "every truncation of the four DER forms, PEM mutations, length/tag edits and random bytes through the five public parsers under a panic trap and the "
@@ -267,7 +267,7 @@ def c18(tier, seed):
 def c19(tier, seed):
     need_repo_bins()
     return generic(
-        "C19", tier, seed, scaled_quick=(), scaled_thorough=(), budgets=(60, 900),
+        "C19", tier, seed, scaled_quick=(), scaled_thorough=(), budgets=(300, 1800),
         rule="the mlar binary built from the tree is run for keygen --seed and keyderive (X25519 DER/PEM and Ed25519 parents, path lists of length 1..5 with repeated and "
              "empty paths, unicode / empty / 10 kB strings); the files it writes are compared with the harness's own implementation of the README algorithm (SHA-512, hand-written "
              "ChaCha20 block function, hand-written HMAC/HKDF-SHA512, x25519 base-point multiple), determinism, composition along (p1..pn) vs p1..pn-1 then pn, public matches private; "
@@ -280,7 +280,7 @@ def c19(tier, seed):
 def c16(tier, seed):
     need_repo_bins()
     return generic(
-        "C16", tier, seed, scaled_quick=(), scaled_thorough=(), budgets=(90, 1200),
+        "C16", tier, seed, scaled_quick=(), scaled_thorough=(), budgets=(360, 1800),
         rule="archives whose member names come from a path grammar ('/', '.', '..', normal, empty, 255- and 256-byte, unicode components in every position, trailing "
              "separators, absolute names pointing into sibling canary directories, names going through a pre-existing symlink) are built with the library and extracted by "
              "the mlar binary built from the tree in its three forms (whole archive, listed names, glob) with relative and absolute output arguments; observer 1: strace log "
@@ -295,7 +295,7 @@ def c16(tier, seed):
 def c17(tier, seed):
     need_repo_bins()
     return generic(
-        "C17", tier, seed, scaled_quick=(), scaled_thorough=(), budgets=(120, 1500),
+        "C17", tier, seed, scaled_quick=(), scaled_thorough=(), budgets=(480, 1800),
         rule="generated file trees (empty files, nested directories, unicode and spaces, sizes 0, 1, 128 KiB +- 1, 4 MiB +- 1 in thorough) are archived by `mlar create` "
              "(file list or directory recursion; none/compress/encrypt/both; levels; 1-3 recipient keys incl. an Ed25519 sample pair) and followed by chains of "
              "convert / repair to other layer and key choices; after every step list, list -vv (size within rounding, SHA-256), cat, extract (whole and one listed "
@@ -324,7 +324,7 @@ def build_c_driver():
 def c20(tier, seed):
     build_c_driver()
     return generic(
-        "C20", tier, seed, scaled_quick=(), scaled_thorough=(), budgets=(120, 1500),
+        "C20", tier, seed, scaled_quick=(), scaled_thorough=(), budgets=(480, 1800),
         rule="a C driver compiled with ASan+UBSan (a subset also uninstrumented under valgrind memcheck) and linked against libmla.a built from the tree interprets "
              "generated programs: archive creation through mla_archive_file_new/append/flush/close with write callbacks following an acceptance schedule (1 byte, 1..7, "
              "4095, ...), read back by the Rust reader and compared with what was passed in; extraction of library-written archives through mla_roarchive_extract with "
